@@ -406,6 +406,31 @@ class NPShim(types.ModuleType):
             return _map2(lambda x, y: SymBool(z3.Or(liftb(x), liftb(y))), a, b)
         return _np.logical_or(a, b)
 
+    def isclose(self, a, b, rtol=1e-05, atol=1e-08, equal_nan=False):
+        if _has_sym(a) or _has_sym(b):
+            def f(x, y):
+                d = x - y
+                lim = atol + rtol * builtins.abs(y)
+                return SymBool(z3.And(lift(d) <= lift(lim), lift(-d) <= lift(lim))) if is_sym(d) or is_sym(lim) \
+                    else bool(builtins.abs(d) <= lim)
+            if isinstance(a, _np.ndarray) or isinstance(b, _np.ndarray):
+                return _map2(f, a, b)
+            return f(a, b)
+        return _np.isclose(a, b, rtol=rtol, atol=atol, equal_nan=equal_nan)
+
+    def allclose(self, a, b, rtol=1e-05, atol=1e-08, equal_nan=False):
+        if _has_sym(a) or _has_sym(b):
+            return self.all(self.isclose(a, b, rtol=rtol, atol=atol))
+        return _np.allclose(a, b, rtol=rtol, atol=atol, equal_nan=equal_nan)
+
+    def array_equal(self, a, b):
+        if _has_sym(a) or _has_sym(b):
+            a, b = _np.asarray(a, dtype=object), _np.asarray(b, dtype=object)
+            if a.shape != b.shape:
+                return False
+            return self.all(_map2(lambda x, y: x == y, a, b))
+        return _np.array_equal(a, b)
+
     def isnan(self, a):
         if _has_sym(a):
             if isinstance(a, _np.ndarray):
@@ -608,6 +633,11 @@ class NPShim(types.ModuleType):
         M = _np.asarray(M)
         if M.dtype != object:
             return _np.linalg.pinv(M)
+        if M.ndim == 3:
+            out = _np.empty(M.shape, dtype=object)
+            for i in range(M.shape[0]):
+                out[i] = self._pinv(M[i])
+            return out.view(SArr)
         if M.shape[0] != M.shape[1]:
             raise Unsupported("pinv of non-square symbolic matrix")
         return self._inv(M)   # contract: X.M = I when det != 0 (obligation by the division)
